@@ -89,7 +89,7 @@ assert len(DP16) == 23
 def rand_dp32(rng):
     lo = lambda: rng.randrange(0, 6)
     ops = [0, 1, 2, 3, 4, 8, 10, 11, 13, 14]
-    k = rng.randrange(7)
+    k = rng.randrange(8)
     if k == 0:      # data-processing (shifted register)
         return 0xEA000000 | rng.choice(ops) << 21 | rng.getrandbits(1) << 20 | lo() << 16 | rng.getrandbits(3) << 12 | lo() << 8 | rng.getrandbits(2) << 6 | rng.getrandbits(2) << 4 | lo()
     if k == 1:      # data-processing (modified immediate)
@@ -102,8 +102,28 @@ def rand_dp32(rng):
         return 0xFA0FF080 | rng.choice([0, 1, 4, 5]) << 20 | lo() << 8 | rng.getrandbits(2) << 4 | lo()
     if k == 5:      # MUL / MLA
         return 0xFB000000 | lo() << 16 | rng.choice([15, lo()]) << 12 | lo() << 8 | lo()
-    rm = lo()
-    return 0xFAB0F080 | rm << 16 | lo() << 8 | rm        # CLZ (Rm in both fields)
+    if k == 6 and rng.random() < 0.5:
+        rm = lo()
+        return 0xFAB0F080 | rm << 16 | lo() << 8 | rm        # CLZ (Rm in both fields)
+    # bit-field, saturating, parallel, halfword-multiply and long-multiply forms with in-range fields
+    lsb = rng.randrange(0, 32)
+    w1 = rng.randrange(0, 32 - lsb)
+    rdlo, rdhi = rng.sample(range(6), 2)
+    return rng.choice([
+        0xF3C00000 | lo() << 16 | (lsb >> 2) << 12 | lo() << 8 | (lsb & 3) << 6 | w1,                    # UBFX
+        0xF3400000 | lo() << 16 | (lsb >> 2) << 12 | lo() << 8 | (lsb & 3) << 6 | w1,                    # SBFX
+        0xF3600000 | lo() << 16 | (lsb >> 2) << 12 | lo() << 8 | (lsb & 3) << 6 | (lsb + w1),            # BFI
+        0xF3000000 | lo() << 16 | rng.getrandbits(3) << 12 | lo() << 8 | rng.getrandbits(2) << 6 | rng.randrange(0, 32),   # SSAT
+        0xF3800000 | lo() << 16 | rng.getrandbits(3) << 12 | lo() << 8 | rng.getrandbits(2) << 6 | rng.randrange(0, 32),   # USAT
+        0xFA90F000 | lo() << 16 | lo() << 8 | lo(),       # SADD16
+        0xFA80F040 | lo() << 16 | lo() << 8 | lo(),       # UADD8
+        0xFA80F080 | lo() << 16 | lo() << 8 | lo(),       # QADD
+        0xFAA0F080 | lo() << 16 | lo() << 8 | lo(),       # SEL
+        0xFB10F000 | lo() << 16 | lo() << 8 | rng.getrandbits(2) << 4 | lo(),      # SMULxy
+        0xFBC00000 | lo() << 16 | rdlo << 12 | rdhi << 8 | lo(),                    # SMLAL
+        0xFBA00000 | lo() << 16 | rdlo << 12 | rdhi << 8 | lo(),                    # UMULL
+        0xFA90F0A0 | lo() << 16 | lo() << 8 | lo(),       # RBIT-family neighbour (REV forms use Rm twice; keep to SADD16-class fields)
+    ][:12])
 
 
 def _flags_change_outside(word, regs, nzcv):
@@ -156,7 +176,7 @@ def gen(item, rng, tier):
                 rt = rng.randrange(0, 6)
                 slots.append({'t': 'ldr_deny' if load else 'str_deny', 'w': T.ldst_imm('ldr' if load else 'str', rt, 7, rng.randrange(0, 8)), 'rt': rt})
             continue
-        choices = ['mov', 'mov', 'dp16', 'dp16', 'dp16', 'movw', 'addw', 'str', 'ldr', 'mrs', 'ldrw', 'strw', 'rand32', 'rand32']
+        choices = ['mov', 'mov', 'dp16', 'dp16', 'dp16', 'movw', 'addw', 'str', 'ldr', 'mrs', 'ldrw', 'strw', 'rand32', 'rand32', 'multi']
         if not (kind == 'udf' and special is not None and i < special):
             choices.append('cmp')           # a CMP before the UDF slot would invalidate its static pass/fail
         if last and rng.random() < 0.3:
@@ -188,6 +208,21 @@ def gen(item, rng, tier):
             # a seeded member of the 32-bit Thumb data-processing families (registers r0-r5 only, so no UNPREDICTABLE forms):
             # checked for 'failing condition => no register, flag or memory change' and for the ITSTATE advance
             slots.append({'t': 'any', 'w': rand_dp32(rng), 'name': 'dp32'})
+        elif t == 'multi':
+            kindm = rng.choice(['stm', 'ldm', 'ldrd', 'strd', 'nop', 'nopw'])      # (no PUSH/POP: another slot may load SP)
+            if kindm in ('stm', 'ldm'):
+                lst = rng.getrandbits(5) | rng.choice([1, 2, 3])
+                if bin(lst).count('1') < 2:
+                    lst |= 0x18
+                w = T.ldstm_w(kindm == 'ldm', 6, lst, db=0, w=0)            # base r6 (data page), no write-back
+            elif kindm in ('push', 'pop'):
+                w = (0xB400 if kindm == 'push' else 0xBC00) | (rng.getrandbits(5) | 1)
+            elif kindm in ('ldrd', 'strd'):
+                ra, rb = rng.sample(range(5), 2)
+                w = T.ldstd(kindm == 'ldrd', ra, rb, 6, rng.randrange(0, 16))
+            else:
+                w = T.NOP if kindm == 'nop' else T.NOP_W
+            slots.append({'t': 'any', 'w': w, 'name': kindm})
         elif t in ('ldrw', 'strw'):
             # 32-bit load/store whose second halfword starts with every Rt value, SP included (hw2[15:12] = 0b1101 looks like a B<c> halfword)
             rt = rng.choice([rd, rd, 13 if t == 'ldrw' else rd, 12, 8])
@@ -209,8 +244,8 @@ def gen(item, rng, tier):
             slots.append({'t': 'ldr', 'w': T.ldst_imm('ldr', rd, 6, off), 'rd': rd, 'addr': P.DBASE + 4 * off})
         elif t == 'b':
             # a branch as last slot, skipping the 16-bit marker that follows the block: B (T2), B.W (T4), BL, BX Rm, BLX Rm
-            form = rng.choice(['b', 'b', 'bw', 'bl', 'bx', 'blx'])
-            w = {'b': T.b(4), 'bw': 0xF000B801, 'bl': 0xF000F801, 'bx': T.bx(9), 'blx': 0x4780 | 9 << 3}[form]
+            form = rng.choice(['b', 'b', 'bw', 'bl', 'bx', 'blx', 'movpc'])
+            w = {'b': T.b(4), 'bw': 0xF000B801, 'bl': 0xF000F801, 'bx': T.bx(9), 'blx': 0x4780 | 9 << 3, 'movpc': 0x46CF}[form]
             slots.append({'t': 'b', 'w': w, 'form': form, 'name': 'branch_' + form})
     # optional prologue / epilogue: the very same MOVS halfwords that sit in the block are also executed outside it, where they
     # must set N/Z (and inside they must not) — decode-time context must not leak from one execution to the next
@@ -377,7 +412,7 @@ class ITObserver:
                 b.violate('it.effect', t, 'passed_condition_no_effect', 'slot %d: store did not land' % i)
             elif t == 'ldr' and post_r(slot['rd']) != int.from_bytes(M.peek(arm, slot['addr'], 4), 'little'):
                 b.violate('it.effect', t, 'passed_condition_no_effect', 'slot %d: load did not land' % i)
-            if t in ('mov', 'dp16', 'chg', 'str', 'ldr', 'nop', 'b') and slot.get('name') != 'dp32' and not flags_same:
+            if t in ('mov', 'dp16', 'chg', 'str', 'ldr', 'nop', 'b') and slot['t'] != 'any' and not flags_same:
                 b.violate('it.flags', slot.get('name', t), 'flags_set_inside_it_block', 'slot %d (%s, word %#x) changed NZCV %x -> %x inside the IT block' % (
                     i, slot.get('name', t), slot['w'], nzcv, post_cpsr >> 28))
             if t == 'cmp':
